@@ -55,7 +55,23 @@ var (
 // repScript is what one replica answers in one round.
 type repScript struct {
 	check, compact, commit, cleanup int
-	hook                            func(phase string) // optional: real work behind the fake (real-store tier)
+	// real-store tier: the real work behind the fake. It runs when the scripted
+	// answer is ok, and also before a scripted error when errAfter is set
+	// ("the work was done but the answer got lost").
+	real     func(phase string) error
+	errAfter bool
+}
+
+// work runs the real operation behind a scripted answer; a genuine error of
+// the real store is passed on like a real volume server would.
+func (s *repScript) work(phase string, ok bool) error {
+	if s.real == nil || !ok && !s.errAfter {
+		return nil
+	}
+	if err := s.real(phase); err != nil && ok {
+		return err
+	}
+	return nil
 }
 
 func (s repScript) String() string {
@@ -135,6 +151,20 @@ func (f *fakes) answer(server int, vid uint32, phase string, decide func(s *repS
 	return ok, ro, s
 }
 
+// realFailed corrects the logged answer of the latest RPC of (server, vid, phase):
+// the real store behind the fake returned an error of its own.
+func (f *fakes) realFailed(server int, vid uint32, phase string, err error) {
+	f.mu.Lock()
+	for i := len(f.log) - 1; i >= 0; i-- {
+		if e := &f.log[i]; e.server == server && e.vid == vid && e.phase == phase {
+			e.ok, e.ro = false, false
+			e.note += " [real store: " + err.Error() + "]"
+			break
+		}
+	}
+	f.mu.Unlock()
+}
+
 type fakeVS struct {
 	volume_server_pb.UnimplementedVolumeServerServer
 	idx int
@@ -168,11 +198,12 @@ func (s *fakeVS) VacuumVolumeCompact(ctx context.Context, req *volume_server_pb.
 	if sc == nil {
 		return nil, fmt.Errorf("volume id %d is not found during compact", req.VolumeId)
 	}
+	if err := sc.work("compact", ok); err != nil {
+		s.f.realFailed(s.idx, req.VolumeId, "compact", err)
+		return nil, err
+	}
 	if !ok {
 		return nil, scripted("compact", sc.compact == cpErrT)
-	}
-	if sc.hook != nil {
-		sc.hook("compact")
 	}
 	return &volume_server_pb.VacuumVolumeCompactResponse{}, nil
 }
@@ -184,11 +215,12 @@ func (s *fakeVS) VacuumVolumeCommit(ctx context.Context, req *volume_server_pb.V
 	if sc == nil {
 		return nil, fmt.Errorf("volume id %d is not found during commit compact", req.VolumeId)
 	}
+	if err := sc.work("commit", ok); err != nil {
+		s.f.realFailed(s.idx, req.VolumeId, "commit", err)
+		return nil, err
+	}
 	if !ok {
 		return nil, scripted("commit", sc.commit == cmErrT)
-	}
-	if sc.hook != nil {
-		sc.hook("commit")
 	}
 	return &volume_server_pb.VacuumVolumeCommitResponse{IsReadOnly: ro}, nil
 }
@@ -198,8 +230,9 @@ func (s *fakeVS) VacuumVolumeCleanup(ctx context.Context, req *volume_server_pb.
 	if sc == nil {
 		return nil, fmt.Errorf("volume id %d is not found during cleaning up", req.VolumeId)
 	}
-	if sc.hook != nil {
-		sc.hook("cleanup")
+	if err := sc.work("cleanup", true); err != nil && ok {
+		s.f.realFailed(s.idx, req.VolumeId, "cleanup", err)
+		return nil, err
 	}
 	if !ok {
 		return nil, scripted("cleanup", false)
